@@ -76,6 +76,9 @@ pub trait DrainDyn<T> {
     fn fold_collect(self: Box<Self>) -> Vec<T>;
     fn rfold_collect(self: Box<Self>) -> Vec<T>;
     fn rev_last(self: Box<Self>) -> Option<T>;
+    /// `position` / `rposition` with a predicate, on the drain itself (elements passed over are destroyed)
+    fn position_dyn(&mut self, f: &mut dyn FnMut(&T) -> bool) -> Option<usize>;
+    fn rposition_dyn(&mut self, f: &mut dyn FnMut(&T) -> bool) -> Option<usize>;
 }
 
 impl<const N: usize, T: Debug> DrainDyn<T> for Drain<'_, N, T> {
@@ -118,6 +121,12 @@ impl<const N: usize, T: Debug> DrainDyn<T> for Drain<'_, N, T> {
     fn rev_last(self: Box<Self>) -> Option<T> {
         (*self).rev().last()
     }
+    fn position_dyn(&mut self, f: &mut dyn FnMut(&T) -> bool) -> Option<usize> {
+        Iterator::position(self, |x| f(&x))
+    }
+    fn rposition_dyn(&mut self, f: &mut dyn FnMut(&T) -> bool) -> Option<usize> {
+        Iterator::rposition(self, |x| f(&x))
+    }
     fn next(&mut self) -> Option<T> {
         Iterator::next(self)
     }
@@ -156,6 +165,8 @@ pub trait IntoIterDyn<T> {
     fn rev_last(self: Box<Self>) -> Option<T>;
     fn skip_collect(self: Box<Self>, k: usize) -> Vec<T>;
     fn step_by_collect(self: Box<Self>, k: usize) -> Vec<T>;
+    fn position_dyn(&mut self, f: &mut dyn FnMut(&T) -> bool) -> Option<usize>;
+    fn rposition_dyn(&mut self, f: &mut dyn FnMut(&T) -> bool) -> Option<usize>;
 }
 
 impl<const N: usize, T: Debug + Clone + 'static> IntoIterDyn<T> for IntoIter<N, T> {
@@ -214,6 +225,12 @@ impl<const N: usize, T: Debug + Clone + 'static> IntoIterDyn<T> for IntoIter<N, 
     }
     fn step_by_collect(self: Box<Self>, k: usize) -> Vec<T> {
         (*self).step_by(k + 1).take(N + 2).collect()
+    }
+    fn position_dyn(&mut self, f: &mut dyn FnMut(&T) -> bool) -> Option<usize> {
+        Iterator::position(self, |x| f(&x))
+    }
+    fn rposition_dyn(&mut self, f: &mut dyn FnMut(&T) -> bool) -> Option<usize> {
+        Iterator::rposition(self, |x| f(&x))
     }
 }
 
